@@ -49,7 +49,9 @@ CLAIMS = {
     "C20": ("Theorems C20_never_panics, bitvector_valid, bitlist_valid, bitvector_reachable, bitlist_reachable. Tie + oracle: Unstructured inputs on all 30 generator types; aggregate oracle: every capacity >= 1 generated at least once.",
             "arbitrary::Unstructured::fill_buffer and usize::arbitrary are third-party: modelled, tied by this correspondence"),
 }
-TECH = "Coq proof over a hand-written Gallina model + checked model/implementation correspondence (extracted OCaml vs Rust harness)"
+TECH = ("Coq proof (kernel-checked theorems, no axioms) over a hand-written Gallina model; the model is tied to /repo on every run by "
+        "(1) a checked model/implementation correspondence (extracted OCaml model vs a Rust harness rebuilt from the working tree) and "
+        "(2) for the offset / selector / builder / encoder / bitfield core, a Rust->Gallina translator (rs2v) whose output is proved equal to the model (GenEquiv.v)")
 
 checks = []
 for p in props:
@@ -64,7 +66,7 @@ for p in props:
             replay_cmd_template="./check %s --replay {path}" % pid,
             engine="coq-model+correspondence",
             level_claimed=dict(category="proof", text=text, design_ref="DESIGN.md section 5 (%s)" % pid),
-            level_note="trusted: Coq 8.16.1 kernel (Print Assumptions: closed under the global context), extraction with ExtrOcamlBasic only, OCaml driver, Rust harness, type generator; " + note,
+            level_note="trusted: Coq 8.16.1 kernel (Print Assumptions: closed under the global context), extraction with ExtrOcamlBasic only, OCaml driver, Rust harness, type generator, the rs2v translator and RustSem.v; " + note,
             technique=TECH))
 NA = {
 }
@@ -74,7 +76,7 @@ m = dict(
     hooks=dict(guard="ethereum_ssz_verif", enable="none needed: the checks observe the public API of the crate built from /repo's working tree; no hook commits exist",
                baseline_off_cmd="cd /repo && cargo test --workspace --no-fail-fast --offline", source_commits=[], add_only=True),
     engines=[dict(name="coq-model+correspondence", path="/verif/check", serves_properties=sorted(CLAIMS),
-                  kind_free_text="Coq 8.16 proofs (coq/theories, property theorems in coq/theories/Properties) over a hand-written Gallina model; the model is extracted to OCaml (ocaml/driver) and run against a Rust harness (harness/) rebuilt from /repo on every check")],
+                  kind_free_text="Coq 8.16 proofs (coq/theories, property theorems in coq/theories/Properties) over a hand-written Gallina model; the model is extracted to OCaml (ocaml/driver) and run against a Rust harness (harness/) rebuilt from /repo on every check; rs2v/ re-derives 18 core functions from the Rust text on every check and GenEquiv.v proves them equal to the model; srcmap.py pins every source item to the model definition that transcribes it")],
     checks=checks,
     notes="Six genuine defects were found by these checks and repaired by fix: commits in /repo (known_findings.json). VERIF_SEED seeds the single PRNG stream; VERIF_TIER or --tier selects quick/thorough.",
     not_applicable=[dict(property_id=k, reason=v) for k, v in NA.items() if k not in CLAIMS],
